@@ -91,6 +91,8 @@ func ZzC16FindSym() {
 func ZzC16FindChain() {
 	p := zzParams()
 	K := zz.Param("K", 4)
+	regime := zz.Param("REGIME", 0)
+	faster := false
 	base := zz.U64("base")
 	zz.Assume(base >= 1 && base <= 1<<62)
 	chain := make([]*zh.Hdr, K+1)
@@ -98,7 +100,17 @@ func ZzC16FindChain() {
 		chain[i] = &zh.Hdr{H: base + uint64(i), T: zz.Time("t." + itoa(i)), ID: i}
 		if i > 0 {
 			d := chain[i].T.Sub(chain[i-1].T)
-			zz.Assume(d >= 0 && d <= p.blockTime) // "header times are spaced by at most the block time"
+			if regime == 0 {
+				zz.Assume(d >= 0 && d <= p.blockTime) // "header times are spaced by at most the block time"
+				if d < p.blockTime {
+					faster = true
+				}
+			} else {
+				// halted / slow chains: blocks never come faster than blockTime, gaps may be arbitrarily long.
+				// Pruning a header that is still inside the window here can only come from an estimate that
+				// wrapped around or left the chain (the property's "no wrap around" clause made observable).
+				zz.Assume(p.blockTime > 0 && d >= p.blockTime)
+			}
 		}
 	}
 	oldTail, head := chain[0], chain[K]
@@ -129,7 +141,12 @@ func ZzC16FindChain() {
 	// known finding: when the old tail is at least one window behind the expected tail the estimate is taken
 	// from the head (head - window/blockTime) and only ever scanned upwards, so with blocks faster than
 	// blockTime headers inside the window are pruned.
-	if zz.Known("C16-retention-estimate-from-head", cut.Sub(oldTail.T) >= p.PruningWindow) {
+	if regime == 1 {
+		// only the head-based estimate (head - window/blockTime) can wrap; the tail-based one overshoots on
+		// slow chains by design and is outside the property's retention clause
+		zz.Assume(cut.Sub(oldTail.T) >= p.PruningWindow)
+	}
+	if zz.Known("C16-retention-estimate-from-head", regime == 0 && faster && cut.Sub(oldTail.T) >= p.PruningWindow) {
 		zz.Reach("estimate-from-head")
 	}
 	for i := 0; i <= K; i++ {
